@@ -70,6 +70,11 @@ def make_item(eng, kind, i):
         u = sym.symbytes(f"u{i}_", 2)
         v = sym.symbytes(f"v{i}_", 4)
         return [0xB5, 0x62] + u.e + [1, 1] + [0x55] * 3 + v.e + [0x55] * 250 + [0x55, 0x55], False, None
+    if kind == 'UX':
+        # UBX frame with a 1030-byte payload (RXM-RAWX size class): four free bytes near its end may look like a frame header
+        u = sym.symbytes(f"u{i}_", 2)
+        v = sym.symbytes(f"v{i}_", 4)
+        return [0xB5, 0x62] + u.e + [0x06, 0x04] + [0x55] * 1016 + v.e + [0x55] * 10 + [0x55, 0x55], False, None
     if kind in ('X1', 'X2'):
         x = sym.symbytes(f"x{i}_", int(kind[1]))
         for b in x.e:
@@ -83,6 +88,12 @@ def build(eng, seq):
     data = []
     items = []
     for i, k in enumerate(seq):
+        if k == 'T':
+            # the previous frame once more, byte for byte (same checksum bytes)
+            prev = [it for it in items if it.frame][-1]
+            items.append(Item(k, list(prev.elems), len(data), True, prev.payload_len))
+            data += list(prev.elems)
+            continue
         if k == 'S':
             # the same header and payload as the previous frame (a re-broadcast), with its own three checksum bytes
             prev = [it for it in items if it.frame][-1]
